@@ -15,7 +15,9 @@ TABLE = {
             ('OpyVerif.Proofs.InitCode', 'Opy', None), ('OpyVerif.Generated.Init', 'Opy.Gen', None),
             ('OpyVerif.Generated.FormulasC18', 'Opy.Gen', r'uniformWrapper_eq|gaussianWrapper_eq'),
             ('OpyVerif.Proofs.TaskRun', 'Opy', r'^(goodBody_pattern|good_pattern|exec_body|task_evals_inBox|task_best_inBox|task_best_evaluated)$'),
-            ('OpyVerif.Proofs.TaskRunCode', 'Opy', r'code_task_evals_in|code_task_best_inBox|clipsInto|code_taskSkeletons_good|code_taskSweeps_plain')],
+            ('OpyVerif.Proofs.TaskRunCode', 'Opy', r'code_task_evals_in|code_task_best_inBox|clipsInto|code_taskSkeletons_good|code_taskSweeps_plain'),
+            ('OpyVerif.Proofs.TaskTrial', 'Opy', r'^(trialStep_evals_inBox|greedyUpdate_evals_inBox|task_greedy)$'),
+            ('OpyVerif.Proofs.TaskTrialCode', 'Opy', r'code_trial_evals_inBox|code_trialSites_ok|code_task_greedy')],
     'C02': [('OpyVerif.Proofs.C02', 'Opy', None),
             ('OpyVerif.Proofs.SweepCode', 'Opy', None), ('OpyVerif.Proofs.SweepProg', 'Opy', None),
             ('OpyVerif.Generated.Sweeps', 'Opy.Gen', None),
@@ -118,7 +120,10 @@ TABLE = {
             ('OpyVerif.Proofs.Accept', 'Opy', r'accept_never_worse|accept_pair'),
             ('OpyVerif.Generated.Accepts', 'Opy.Gen', r'acceptSites_ok|replacing_sites'),
             ('OpyVerif.Proofs.C06', 'Opy', r'clipPos_fixed'),
-            ('OpyVerif.Proofs.Lemmas.MachineInv', 'Opy', r'inv_(apply|run|init)')],
+            ('OpyVerif.Proofs.Lemmas.MachineInv', 'Opy', r'inv_(apply|run|init)'),
+            ('OpyVerif.Proofs.TaskTrial', 'Opy', r'^(leAll_refl|leAll_trans|leAll_set|trialStep_pop|greedyUpdate_evals_inBox|sweepPop_pop|ginv_execEv|ginv_exec|task_greedy)$'),
+            ('OpyVerif.Proofs.TaskTrialCode', 'Opy', r'code_task_greedy|code_greedySites_ok|code_trialSites_ok|code_searchClip_fixes'),
+            ('OpyVerif.Generated.Skeletons', 'Opy.Gen', r'skel_\w+_good|evalSites_ok')],
 }
 
 
